@@ -818,18 +818,18 @@ def _contains_atom_or_functor(t, name):
 
 
 def has_naf_disj_cut(t):
-    """\\+ over a goal that contains both a disjunction and a cut, e.g. \\+ (! ; X = X) (with a variable first seen inside, the
+    """\\+ over a goal that contains a cut, e.g. \\+ (! ; X = X) or !, p, \\+ (!, q(X)) (with a variable first seen inside and used later, the
     cut variable of the inlined \\+ is never allocated: CutPrev reads perm slot 0 and panics)"""
     if t[0] != "cmp":
         return False
-    if t[1] == "\\+" and len(t[2]) == 1 and _contains_atom_or_functor(t[2][0], "!") and _contains_atom_or_functor(t[2][0], ";"):
+    if t[1] == "\\+" and len(t[2]) == 1 and _contains_atom_or_functor(t[2][0], "!"):
         return True
     return any(has_naf_disj_cut(x) for x in t[2])
 
 
 def panic_key(prog, q, msg):
     if "subtract with overflow" in msg and any(has_naf_disj_cut(t) for t in [q] + [b for _, b in prog]):
-        return "naf-over-disjunction-with-cut-panics-subtract-overflow"
+        return "naf-with-cut-inside-panics-subtract-overflow"
     if any(has_is_barevar(t) for t in [q] + [b for _, b in prog]) and ("crash" in msg or "evaluable" in msg):
         return "is-with-bare-permanent-variable-rhs-reads-garbage-or-segfaults"
     return "panic:" + msg[:48]
